@@ -257,7 +257,9 @@ func (cc *Conn) AsyncPing(receivedPong func()) (func(), error) {
 
 	if _, loaded := cc.tokenHandlerContainer.LoadOrStore(token.Hash(), func(_ *responsewriter.ResponseWriter[*Conn], r *pool.Message) {
 		if r.Code() == codes.Pong {
-			receivedPong()
+			// not on this goroutine: it reads the connection, and the callback may issue a request whose
+			// answer has to be read while the callback waits
+			go receivedPong()
 		}
 	}); loaded {
 		return nil, fmt.Errorf("cannot add token handler: %w", coapErrors.ErrKeyAlreadyExists)
